@@ -182,12 +182,23 @@ NEEDS.update({
  "R10_C19_2":"boxed random_mod with modulus exactly 1: the sampler is skipped, so the stream is consumed differently from the fixed-width path",
  "R10_C19_3":"Uint::try_random_bits_with_precision with a mismatching precision inside the top limb (accepted; bit_length above it returned)",
 })
+NEEDS.update({
+ "R11_C08_1":"BoxedMontyParams::new_vartime at an odd limb count >= 3 with a modulus whose R mod m spills into the middle limb (half-width fast path for R^2 with the wrong bound)",
+ "R11_C08_2":"pow_bounded_exp / multi_exponentiate_bounded_exp with a zero bit bound in a build with overflow checks (release wraps to the right answer)",
+ "R11_C08_3":"BoxedMontyForm::zero for a modulus with whole zero high limbs (value narrower than its ring), then any operation with another value",
+ "R11_C12_1":"little-endian decoding at a width with an odd limb count of five or more (U320, U448...): the left-over top limb is read big-endian",
+ "R11_C12_2":"an RNG that delivers LIMBS consecutive zero words within one draw of Odd<Uint>::try_random (trailing zeros stripped instead of the low bit forced)",
+ "R11_C12_3":"constant-time BoxedUint::sqrt / checked_sqrt of zero (the internal NonZero divisor is refreshed unconditionally and becomes zero)",
+ "R11_C19_1":"Limb::random_mod with a modulus whose top bit is set: an overshooting candidate is folded back (n - m) instead of redrawn",
+ "R11_C19_2":"an RNG returning exactly the words of Int::MIN within one draw of Int::try_random (redrawn: MIN never produced, stream read differently from Uint)",
+ "R11_C19_3":"Int::try_random_bits(_with_precision) with bit_length == BITS (refused as too large)",
+})
 os.makedirs("/verif/seeded", exist_ok=True)
 rows=[]
 for name, needs in NEEDS.items():
     parts = name.split("_")
     prop, i = parts[-2], parts[-1]
-    src=f"/tmp/wt2_{prop}/seeded_out/{i}" if name.startswith("R2_") else (f"/tmp/wt3_{prop}/seeded_out/{i}" if name.startswith("R3_") else (f"/tmp/wt4_{prop}/seeded_out/{i}" if name.startswith("R4_") else (f"/tmp/wt5_{prop}/seeded_out/{i}" if name.startswith("R5_") else f"/tmp/wt6_{prop}/seeded_out/{i}" if name.startswith("R6_") else f"/tmp/wt7_{prop}/seeded_out/{i}" if name.startswith("R7_") else f"/tmp/wt8_{prop}/seeded_out/{i}" if name.startswith("R8_") else f"/tmp/wt9_{prop}/seeded_out/{i}" if name.startswith("R9_") else f"/tmp/wt10_{prop}/seeded_out/{i}" if name.startswith("R10_") else f"/tmp/wt_{prop}/seeded_out/{i}")))
+    src=f"/tmp/wt2_{prop}/seeded_out/{i}" if name.startswith("R2_") else (f"/tmp/wt3_{prop}/seeded_out/{i}" if name.startswith("R3_") else (f"/tmp/wt4_{prop}/seeded_out/{i}" if name.startswith("R4_") else (f"/tmp/wt5_{prop}/seeded_out/{i}" if name.startswith("R5_") else f"/tmp/wt6_{prop}/seeded_out/{i}" if name.startswith("R6_") else f"/tmp/wt7_{prop}/seeded_out/{i}" if name.startswith("R7_") else f"/tmp/wt8_{prop}/seeded_out/{i}" if name.startswith("R8_") else f"/tmp/wt9_{prop}/seeded_out/{i}" if name.startswith("R9_") else f"/tmp/wt10_{prop}/seeded_out/{i}" if name.startswith("R10_") else f"/tmp/wt11_{prop}/seeded_out/{i}" if name.startswith("R11_") else f"/tmp/wt_{prop}/seeded_out/{i}")))
     res_p=f"/tmp/seed_logs/{name}.json"
     if not (os.path.isdir(src) and os.path.exists(res_p)):
         if not os.path.exists(f"/verif/seeded/{name}/meta.json"): print("missing", name)
@@ -215,8 +226,8 @@ for name, needs in NEEDS.items():
       "caught_by":caught,
       "first_violations_reported":first,
     }
-    if name[:3] in ("R6_","R7_","R8_","R9_") or name.startswith("R10_"):
-        meta["written_by"]="independent sub-agent given the property text, a scratch worktree, and (rounds 6 to 10) a list of the kinds of change earlier rounds had already tried, so that it would look elsewhere; nothing from /verif"
+    if name[:3] in ("R6_","R7_","R8_","R9_") or name.startswith("R10_") or name.startswith("R11_"):
+        meta["written_by"]="independent sub-agent given the property text, a scratch worktree, and (rounds 6 to 11) a list of the kinds of change earlier rounds had already tried, so that it would look elsewhere; nothing from /verif"
         meta["confirmed_by_me"]["worktree"]=meta["confirmed_by_me"]["worktree"].replace("/tmp/wt_eval ","/tmp/wt_eval or /tmp/wt_eval2 ")
     old_p=os.path.join(dst,"meta.json")
     if os.path.exists(old_p):
